@@ -5,8 +5,10 @@ package main
 
 import (
 	"go/ast"
+	"go/token"
 	"math/big"
 	"path/filepath"
+	"strconv"
 	"strings"
 	"time"
 )
@@ -86,16 +88,32 @@ func genTwap(outDir string) {
 	l.intDef("nsPerSec", big.NewInt(int64(time.Second)))
 	l.intDef("nsPerMs", big.NewInt(int64(time.Millisecond)))
 	l.natDef("NumRecordsToPrunePerBlock", tw.evalInt(id("NumRecordsToPrunePerBlock"), 0))
+	// the store key separator: the most recent records of a pool are visited in the byte order of
+	// "<denom0><sep><denom1>" (updateRecords stops at the first rejected pair, so the order is semantic)
+	ks, ok := tt.consts["KeySeparator"].(*ast.BasicLit)
+	if !ok || ks.Kind != token.STRING {
+		fail("twap KeySeparator is no longer a string literal")
+	}
+	sep, err := strconv.Unquote(ks.Value)
+	if err != nil || len(sep) != 1 {
+		fail("twap KeySeparator is not a one-character string: %s", ks.Value)
+	}
+	l.strDef("KeySeparator", sep)
+	genTwapKeys(l, tt, tw)
 
 	for _, fn := range []string{"newTwapRecord", "getSpotPrices", "Keeper.afterCreatePool", "Keeper.EndBlock", "Keeper.updateRecords",
 		"Keeper.updateRecord", "recordWithUpdatedAccumulators", "Keeper.getInterpolatedRecord", "Keeper.getMostRecentRecord",
 		"computeTwap", "twapLog", "arithmetic.computeTwap", "geometric.computeTwap", "Keeper.getTwap", "Keeper.getTwapToNow",
 		"Keeper.pruneRecordsBeforeTimeButNewest", "Keeper.getRecordAtOrBeforeTime", "Keeper.StoreNewRecord", "Keeper.StoreHistoricalTWAP",
-		"epochhook.AfterEpochEnd"} {
+		"Keeper.GetAllMostRecentRecordsForPoolWithDenoms", "Keeper.trackChangedPool", "Keeper.getChangedPools", "epochhook.AfterEpochEnd"} {
 		l.strDef("src_"+strings.ReplaceAll(fn, ".", "_"), tw.bodyText(fn))
 	}
+	// (every store key constructor / key range of types/keys.go: the model keys its stores by the structured
+	// (pool, denom0, denom1, time) and so abstracts from the byte layout of the keys)
 	for _, fn := range []string{"SpotPriceMulDuration", "AccumDiffDivDuration", "CanonicalTimeMs", "FormatHistoricalPoolIndexTWAPKey",
-		"FormatHistoricalPoolIndexTimeSuffix"} {
+		"FormatHistoricalPoolIndexTimeSuffix", "FormatHistoricalPoolIndexTWAPKeyFromStrTime", "FormatHistoricalPoolIndexTimePrefix",
+		"FormatHistoricalPoolIndexDenomPairTWAPKey", "FormatMostRecentTWAPKey", "FormatKeyPoolTwapRecords",
+		"GetAllMostRecentTwapsForPool", "GetMostRecentTwapForPool", "GetAllUniqueDenomPairs", "LexicographicalOrderDenoms"} {
 		l.strDef("src_types_"+fn, tt.bodyText(fn))
 	}
 	l.write(outDir)
